@@ -228,6 +228,18 @@ def run(ctx):
                 else:
                     conds.append((("!", a), a))
             rng.shuffle(conds)
+        if rng.random() < 0.06:
+            # larger bases: 6-7 atoms, 8-12 conditionals, several layers, a long conjunction chain as antecedent
+            n = rng.randint(6, 7)
+            conds = (core.gen_chain_case(rng, n) if rng.random() < 0.6 else core.gen_tie_case(rng, n))[0]
+            while len(conds) < rng.randint(8, 12):
+                conds.append(core.gen_cond(rng, n, 1, 0.0))
+            if rng.random() < 0.6:
+                conds.append((core.gen_formula(rng, n, 0, 0.0), core.deep_chain(rng, rng.sample(range(n), 6))[0]))
+            if rng.random() < 0.3:
+                a = core.gen_formula(rng, n, 1, 0.0)
+                conds.append((("F",), a))
+            rng.shuffle(conds)
         keys = rng.sample(range(1, 40), len(conds)) if rng.random() < 0.3 else list(range(1, len(conds) + 1))
         facts = [core.gen_formula(rng, n, 2, 0.05) for _ in range(rng.randint(0, 3))]
         cases.append({"n": n, "weakly": rng.random() < 0.5, "base": [[kk, c[0], c[1]] for kk, c in zip(keys, conds)],
